@@ -20,7 +20,7 @@ RULE = ("format: the spec grammar fill{none,' ',*,0,x} x align{none,<,>,=} x sig
         "with a non-empty option, or a program with a print/assert under a conditional; distinct by "
         "(spec, shape) / program skeleton.")
 ASSUMPTIONS = ["oracle = Python format() on the integer in its shape; 'c' values restricted to valid non-surrogate code points; "
-               "'s' oracle = little-endian bytes, NULs dropped, UTF-8 decoded, formatted with the spec minus 's' (printable ASCII only)",
+               "'s' oracle = little-endian bytes, NULs dropped, UTF-8 decoded, formatted with the spec minus s (printable ASCII and multi-byte UTF-8 texts)",
                "Amaranth being stricter than Python for c/s (extra rejections) is not a violation"]
 REQUIRED_MONITORS = ["slot_commit"]
 MIN_NONTRIVIAL = {"quick": 500, "thorough": 3000}
@@ -65,7 +65,7 @@ def values_for(shape, spec, rng):
         return [v for v in (0x41, 0x7e, 0x20, 0xe9, 0x4e2d, 0x1f600) if v < (1 << w)] or ([1] if w == 1 else [0])[:w + 1]
     if spec.endswith("s"):
         out = []
-        for txt in ("", "A", "hi", "xyz!", "Ab c"):
+        for txt in ("", "A", "hi", "xyz!", "Ab c", "\u00e9", "\u2713", "\u00b5s", "\u00e9a", "a\u00e9"):
             b = txt.encode()
             if len(b) * 8 <= w:
                 out.append(int.from_bytes(b, "little"))
@@ -328,8 +328,100 @@ def run_timing_program(spec, steps, out):
                                   "detail": {"spec": spec.d, "steps": steps, "exception": repr(ex)[:300]}})
 
 
+def run_gated(rng, out):
+    """A monitor-only fragment (sync Print / Assert, optionally one register) under EnableInserter,
+    ResetInserter or DomainRenamer: emissions and stops must follow the wrapper's semantics."""
+    from amaranth.hdl import Module, Signal, ClockDomain, Print, Format, Assert, EnableInserter, ResetInserter, DomainRenamer, Cat
+    from amaranth.sim import Simulator
+    wrapper = rng.choice(["enable", "enable", "reset", "rename", "enable+rename", "none"])
+    with_reg = rng.random() < 0.4
+    with_assert = rng.random() < 0.6
+    nested = rng.random() < 0.4
+    k = rng.randrange(16)
+    a = Signal(4)
+    ctl = Signal()
+    mon = Module()
+    if with_reg:
+        r = Signal(4)
+        mon.d.sync += r.eq(r + 1)
+    inner = mon
+    if nested:
+        sub = Module()
+        mon.submodules.sub = sub
+        inner = sub
+    inner.d.sync += Print(Format("M={:d};", a), end="")
+    if with_assert:
+        inner.d.sync += Assert(a != k, Format("K{:d}", a))
+    top = Module()
+    cds = {"sync": ClockDomain("sync"), "other": ClockDomain("other")}
+    top.domains.sync = cds["sync"]
+    top.domains.other = cds["other"]
+    keep = Signal()
+    top.d.other += keep.eq(~keep)
+    frag = mon
+    dom = "sync"
+    if wrapper in ("enable", "enable+rename"):
+        frag = EnableInserter(ctl)(frag) if rng.random() < 0.5 else EnableInserter({"sync": ctl})(frag)
+    elif wrapper == "reset":
+        frag = ResetInserter(ctl)(frag)
+    if wrapper in ("rename", "enable+rename"):
+        frag = DomainRenamer("other")(frag) if rng.random() < 0.5 else DomainRenamer({"sync": "other"})(frag)
+        dom = "other"
+    top.submodules.mon = frag
+    sim = Simulator(top)
+    cfg = {"wrapper": wrapper, "with_reg": with_reg, "with_assert": with_assert, "nested": nested, "k": k}
+    out["hist"]["gated:" + wrapper] = out["hist"].get("gated:" + wrapper, 0) + 1
+    steps = []
+    bad = []
+
+    async def tb(ctx):
+        av = cv = 0
+        for n in range(40):
+            x = rng.random()
+            buf = io.StringIO()
+            raised = None
+            if x < 0.4:
+                av, cv = rng.randrange(16), int(rng.random() < 0.5)
+                steps.append(["in", av, cv])
+                with contextlib.redirect_stdout(buf):
+                    ctx.set(Cat(a, ctl), av | (cv << 4))
+                exp_text, exp_fail = "", None
+            else:
+                d = rng.choice(["sync", "other"])
+                steps.append(["edge", d])
+                with contextlib.redirect_stdout(buf):
+                    try:
+                        ctx.set(cds[d].clk, 1)
+                    except AssertionError as ex:
+                        raised = str(ex)
+                    if raised is None:
+                        ctx.set(cds[d].clk, 0)
+                active = (d == dom) and (cv == 1 or wrapper not in ("enable", "enable+rename"))
+                exp_text = f"M={av};" if active else ""
+                exp_fail = f"Assertion violated: K{av}" if (active and with_assert and av == k) else None
+                out["extra"]["edges_checked"] += 1
+            out["evaluations"] += 1
+            if raised != exp_fail or buf.getvalue() != exp_text:
+                bad.append({"config": cfg, "steps": list(steps), "simulated": buf.getvalue(), "expected": exp_text,
+                            "raised": raised, "expected_failure": exp_fail})
+                return
+            if raised is not None:
+                out["extra"]["assert_stops_checked"] += 1
+                return
+    sim.add_testbench(tb)
+    try:
+        sim.run()
+    except Exception as ex:
+        if exc_origin(ex) != "repo":
+            raise
+        bad.append({"config": cfg, "steps": steps, "exception": repr(ex)[:300]})
+    for b in bad:
+        out["violations"].append({"mechanism": "print-assert-under-wrapper:" + wrapper, "detail": b})
+    out["fps"].add(fp(["gated", cfg, steps[:6]]))
+
+
 def shards(tier, seed):
-    specs = []
+    specs = [{"kind": "gated", "seed": seed, "n": 300 if tier == "quick" else 4000}]
     for i in range(NSHARDS):
         specs.append({"kind": "format", "part": i, "parts": NSHARDS, "seed": seed, "tier": tier})
         specs.append({"kind": "timing", "seed": seed, "shard": i,
@@ -343,7 +435,11 @@ def run_shard(spec):
     out = {"evaluations": 0, "fps": set(), "hist": {}, "violations": [], "samples": [], "exhaustive": [],
            "extra": {"prints_checked": 0, "edges_checked": 0, "non_edge_steps_checked": 0,
                      "print_instants": 0, "assert_stops_checked": 0, "programs": 0}}
-    if spec["kind"] == "format":
+    if spec["kind"] == "gated":
+        rng = derive_rng("c20g", spec["seed"])
+        for _ in range(spec["n"]):
+            run_gated(rng, out)
+    elif spec["kind"] == "format":
         rng = derive_rng("c20f", spec["seed"], spec["part"])
         allspecs = list(grammar_specs())
         mine = allspecs[spec["part"]::spec["parts"]]
